@@ -41,7 +41,9 @@ Pow2(k) == IF k <= 0 THEN 1 ELSE
            LET p[i \in 0..k] == IF i = 0 THEN 1 ELSE 2 * p[i - 1] IN p[k]
 
 RECURSIVE SumFrom(_, _, _)
-SumFrom(s, i, j) == IF i > j THEN 0 ELSE s[i] + SumFrom(s, i + 1, j)       \* s[i] + ... + s[j]
+SumFrom(s, i, j) ==                           \* s[i] + ... + s[j]; halving keeps the recursion shallow (rows of 32767 taps)
+    IF i > j THEN 0 ELSE IF i = j THEN s[i]
+    ELSE LET m == (i + j) \div 2 IN SumFrom(s, i, m) + SumFrom(s, m + 1, j)
 SumSeq(s) == SumFrom(s, 1, Len(s))
 
 (* ---- header ---------------------------------------------------------------------------- *)
@@ -144,6 +146,23 @@ CreateFilter(rbx, rby, b, n) ==
     /\ HdrBx(b) = rbx /\ HdrBy(b) = rby
     /\ flt' = [st |-> "created", w |-> HdrW(b), h |-> HdrH(b), bx |-> rbx, by |-> rby, n |-> n,
                nx |-> Pow2(rbx), ny |-> Pow2(rby), rbx |-> rbx, rby |-> rby]
+
+(* A block cannot exist when an axis needs 32768 or more taps: the header holds w and h as  *)
+(* 16.16 numbers.  The taps an axis needs is the support of the reconstruction kernel plus   *)
+(* scale times the support of the sampling kernel, rounded up (supports in pixels below;     *)
+(* GAUSSIAN is cut at 5).  For such arguments - and only for them - the call may refuse      *)
+(* (return NULL); it must not return a block whose header contradicts its tables             *)
+(* (CreateReturn would not accept it).  scale: raw 16.16, 0 < scale < 2^31.                  *)
+Support(k) == CASE k = "IMPULSE" -> 0 [] k = "BOX" -> 1 [] k = "LINEAR" -> 2 [] k = "CUBIC" -> 4 [] k = "GAUSSIAN" -> 5
+                [] k = "LANCZOS2" -> 4 [] k = "LANCZOS3" -> 6 [] k = "LANCZOS3_STRETCHED" -> 8
+(* Support(rk) + scale/One * Support(sk) > 32767, without leaving 32 bits *)
+Unrepresentable(rk, sk, scale) ==
+    Support(sk) > 0 /\ scale > ((32767 - Support(rk)) * One) \div Support(sk)
+
+CreateRefused(unrep) ==
+    /\ flt.st = "calling"
+    /\ unrep
+    /\ flt' = Idle
 
 (* pixman_image_set_filter (image, SEPARABLE_CONVOLUTION, block, n) must return TRUE      *)
 SetFilter(ret) ==
